@@ -38,6 +38,8 @@ use routee_compass_core::model::access::access_model_builder::AccessModelBuilder
 use routee_compass_core::model::access::access_model_error::AccessModelError;
 use routee_compass_core::model::access::access_model_service::AccessModelService;
 use routee_compass_core::model::access::default::no_access_model::NoAccessModel;
+use routee_compass_core::model::access::default::turn_delays::edge_heading::EdgeHeading;
+use routee_compass_core::model::access::default::turn_delays::turn::Turn;
 use routee_compass_core::model::cost::cost_aggregation::CostAggregation;
 use routee_compass_core::model::cost::cost_model_error::CostModelError;
 use routee_compass_core::model::cost::network::network_cost_rate::NetworkCostRate;
@@ -858,6 +860,7 @@ fn add_case(st: &mut Stream, c: Case, family: &str, dir: &Path, plugin: &Travers
         }
     }
     let mut delayed_turn = false;
+    let mut turns_taken: Vec<Value> = vec![];
     if let Am::Turn { headings, table, unit: du, .. } = &c.am {
         st.count("am:turn_delay");
         st.count(&format!("delay_unit:{}", du));
@@ -885,6 +888,9 @@ fn add_case(st: &mut Stream, c: Case, family: &str, dir: &Path, plugin: &Travers
                     }
                     let ang = if raw > 180 { raw - 360 } else if raw < -180 { raw + 360 } else { raw };
                     let cls = turn_class(ang);
+                    if turns_taken.len() < 6 {
+                        turns_taken.push(json!({"from_heading": ha.1.unwrap_or(ha.0), "to_heading": hb.0, "difference": ang}));
+                    }
                     st.count(&format!("turn:{}", cls));
                     if cls != "NoTurn" && table.iter().any(|(t, d)| t == cls && *d != 0.0) {
                         delayed_turn = true;
@@ -920,7 +926,7 @@ fn add_case(st: &mut Stream, c: Case, family: &str, dir: &Path, plugin: &Travers
             }
         }
     }
-    let desc = json!({"id": id, "family": family, "case": case_json(&c)});
+    let desc = json!({"id": id, "family": family, "turns": turns_taken, "case": case_json(&c)});
     if all_ok && lens.iter().any(|l| *l >= 2) && (unit_differs || delayed_turn) {
         st.mark_nontrivial(&case_json(&c).to_string());
         st.count("nontrivial");
@@ -1319,6 +1325,85 @@ fn random_case(r: &mut Rng, search: bool, pair_summary: bool) -> (Case, &'static
     (Case { nv, edges, features, user, tm, am, cost, op, summary }, fam)
 }
 
+
+// ------------------------------------------------------------------------------------------ behavioural extraction
+
+/// `c03 table --out DIR`: what the COMPILED code does, exhaustively, written to DIR/table.json (no Coq side):
+///   from_angle   Turn::from_angle over the whole i16 range, run-length encoded [lo, hi, serde name] (Err runs omitted)
+///   bearing      EdgeHeading::bearing_to_destination as a function of x = destination.start - self.end over the whole
+///                i16 range (self.end = 0), run-length encoded [lo, hi, x - result] ("panic" for an overflow)
+///   diff_only    bearing(h1, h2) == that function of (h2.start - h1.end) for all 360 x 360 headings, with and without
+///                separate departure headings
+/// translator/tr_turn.py rebuilds Gen/TurnTable.v from this when it cannot read the source text, and the check
+/// cross-checks the two routes when both exist.
+fn stream_table(out: &Path) {
+    std::fs::create_dir_all(out).unwrap();
+    let name_of = |a: i16| -> String {
+        match catch(move || Turn::from_angle(a)) {
+            Err(_) => "panic".to_string(),
+            Ok(Err(_)) => "Err".to_string(),
+            Ok(Ok(t)) => serde_json::to_value(&t).ok().and_then(|v| v.as_str().map(|s| s.to_string())).unwrap_or("?".into()),
+        }
+    };
+    let mut fa: Vec<Value> = vec![];
+    let mut run: Option<(i32, i32, String)> = None;
+    for a in i16::MIN as i32..=i16::MAX as i32 {
+        let n = name_of(a as i16);
+        match &mut run {
+            Some((_, hi, m)) if *m == n => *hi = a,
+            _ => {
+                if let Some((lo, hi, m)) = run.take() {
+                    if m != "Err" {
+                        fa.push(json!([lo, hi, m]));
+                    }
+                }
+                run = Some((a, a, n));
+            }
+        }
+    }
+    if let Some((lo, hi, m)) = run {
+        if m != "Err" {
+            fa.push(json!([lo, hi, m]));
+        }
+    }
+    let f = |x: i16| -> Option<i32> {
+        catch(move || EdgeHeading::new(0, 0).bearing_to_destination(&EdgeHeading::new(x, x))).ok().map(|r| r as i32)
+    };
+    let mut be: Vec<Value> = vec![];
+    let mut run: Option<(i32, i32, Value)> = None;
+    for x in i16::MIN as i32..=i16::MAX as i32 {
+        let v = match f(x as i16) {
+            Some(r) => json!(x - r),
+            None => json!("panic"),
+        };
+        match &mut run {
+            Some((_, hi, m)) if *m == v => *hi = x,
+            _ => {
+                if let Some((lo, hi, m)) = run.take() {
+                    be.push(json!([lo, hi, m]));
+                }
+                run = Some((x, x, v));
+            }
+        }
+    }
+    if let Some((lo, hi, m)) = run {
+        be.push(json!([lo, hi, m]));
+    }
+    let mut diff_only = true;
+    for h1 in 0..360i16 {
+        for h2 in 0..360i16 {
+            let want = f(h2 - h1);
+            let a = catch(move || EdgeHeading::new(h1, h1).bearing_to_destination(&EdgeHeading::new(h2, h2))).ok().map(|r| r as i32);
+            let b = catch(move || EdgeHeading::new(77, h1).bearing_to_destination(&EdgeHeading::new(h2, 5))).ok().map(|r| r as i32);
+            if a != want || b != want {
+                diff_only = false;
+            }
+        }
+    }
+    let t = json!({"from_angle": fa, "bearing": be, "diff_only": diff_only});
+    std::fs::write(out.join("table.json"), t.to_string()).unwrap();
+}
+
 const HEADER: &str = "From Coq Require Import ZArith QArith List String Floats.\nFrom RC Require Import Base.Show Base.Num Base.Res Model.Units Model.StateOps Model.Traversal Model.Cost Model.TraversalRun.\nImport ListNotations.\nOpen Scope Z_scope.";
 
 fn main() {
@@ -1327,6 +1412,10 @@ fn main() {
     }
     let a = parse_args();
     let name = if a.stream.is_empty() { "walk".to_string() } else { a.stream.clone() };
+    if name == "table" {
+        stream_table(&a.out);
+        return;
+    }
     let mut st = Stream::new(&a.out, &name, HEADER, a.shards);
     let dir: PathBuf = a.out.join("files");
     std::fs::create_dir_all(&dir).unwrap();
